@@ -19,7 +19,9 @@ RULE = ('Documents "at version K" are generated offline for every K in 0..SCHEMA
         '(Ref/Image/Derived columns, old- and new-style summary tables), plus schema variants (lax version-0 docs, the '
         'two divergent version-38 schemas). Text cells: stream "expected" = the shape each migration parses + '
         'non-JSON text; stream "anyjson" = valid JSON of every other shape. Separate streams: user tables whose names '
-        'look like old summary tables, documents at/after the current version, and a robustness stream of '
+        'look like old summary tables, documents at/after the current version, ORPHANS (a consistent document plus one '
+        'record referencing nothing: a column record of no table - parentId 0 or dangling, any type - or a dangling '
+        'reference cell in any metadata record; inside the premise, failures are violations), and a robustness stream of '
         'referentially or type-inconsistent documents (counted, outside the premise). correspond: (a) random action '
         'streams (all 14 kinds, errors included) through the TableDataSet model; (b) the real create_migrations, '
         'instrumented, on "expected" documents of every version: driver model with the recorded per-migration '
@@ -44,8 +46,10 @@ TRUSTED = ['Model/Migrate.v is hand-written: TableDataSet (14 actions + exceptio
            'row ids are ints or None, column ids are strings; floats are never printed (str of a float) and nan is never '
            'ordered in the model: documents outside that domain are skipped and counted',
            'Model/MigrateSites.v: raise-only model of the six JSON-reading sites (kept; now subsumed by the body models)']
-ASSUMPTIONS = ['premise of the search and of the totality theorems: metadata cells hold values of their declared types as '
-               'stored in the document file, metadata is referentially consistent; each theorem states its own premise as a '
+ASSUMPTIONS = ['premise of the search: metadata cells hold values of their declared types as stored in the document file '
+               '(records that reference nothing included; only tables without column records and type-incorrect cells are '
+               'left to the robustness stream). The totality theorems ask more where the code looks a reference up (and '
+               'for migrations 7 and 10 more than necessary: every column must name a table); each theorem states its own premise as a '
                'decidable check (pre4 .. pre45 in Model/MigrateBodies.v) that the harness evaluates on every generated '
                'document just before the real migration runs on it',
                'C25_version_after_migration: _grist_DocInfo still has record 1 first and a schemaVersion column when '
